@@ -222,6 +222,15 @@ func within1(obs, want map[string]int, shareNearCut func(c string) bool) bool {
 	return true
 }
 
+// writtenFile: a table file written by a "file" step, with what it held when it was written.
+type writtenFile struct {
+	path          string
+	id            int
+	val, store    map[string]int
+	letters       map[string]string
+	starts, stops []string
+}
+
 func check(c Case) error {
 	firstUse.Do(func() {
 		// the very first thing this process does with the codon package: all defaults are pristine
@@ -252,6 +261,12 @@ func check(c Case) error {
 		return &m
 	}
 	var hs []*handle
+	var files []writtenFile
+	defer func() {
+		for _, f := range files {
+			_ = os.Remove(f.path)
+		}
+	}()
 	usedIDs := map[int]bool{}
 	knownSteps := 0
 
@@ -436,18 +451,28 @@ func check(c Case) error {
 				res = codon.ParseCodonJSON(b)
 				vk.Scribble(b)
 			} else {
-				p := filepath.Join(vk.WorkDir(), "table.json")
+				p := filepath.Join(vk.WorkDir(), fmt.Sprintf("table-%d.json", step))
 				vk.StaleFile(p, 40000)
 				vk.AlternateTempDir(func() { codon.WriteCodonJSON(h.real, p) })
 				res = codon.ReadCodonJSON(p)
 				// a second read of the same, unchanged file is another table of its own
 				again := codon.ReadCodonJSON(p)
-				_ = os.Remove(p)
 				ns2 := copyW(*h.store)
 				add(&handle{real: again, id: h.id, val: copyW(h.val), store: &ns2, letters: h.letters, starts: h.starts, stops: h.stops})
+				// the file stays until the history ends: a later "reread" step reads it again, whatever happened
+				// to the table it was written from in the meantime
+				files = append(files, writtenFile{path: p, id: h.id, val: copyW(h.val), store: copyW(*h.store), letters: h.letters, starts: h.starts, stops: h.stops})
 			}
 			ns := copyW(*h.store)
 			add(&handle{real: res, id: h.id, val: copyW(h.val), store: &ns, letters: h.letters, starts: h.starts, stops: h.stops})
+		case "reread":
+			if len(files) == 0 {
+				continue // nothing written yet in this history
+			}
+			f := files[((op.H1%len(files))+len(files))%len(files)]
+			res := codon.ReadCodonJSON(f.path)
+			ns := copyW(f.store)
+			add(&handle{real: res, id: f.id, val: copyW(f.val), store: &ns, letters: f.letters, starts: f.starts, stops: f.stops})
 		default:
 			return vk.Harnessf("unknown op %q", op.Kind)
 		}
@@ -559,7 +584,7 @@ func genOps(t *rapid.T) []Op {
 	pool := rapid.SliceOfNDistinct(rapid.SampledFrom(tableIDs), 1, 3, func(i int) int { return i }).Draw(t, "id_pool")
 	ops := make([]Op, 0, n)
 	for i := 0; i < n; i++ {
-		kind := rapid.SampledFrom([]string{"get", "get", "reweight", "reweight", "reweight", "add", "compromise", "json", "file"}).Draw(t, "op")
+		kind := rapid.SampledFrom([]string{"get", "get", "reweight", "reweight", "reweight", "add", "compromise", "json", "file", "reread"}).Draw(t, "op")
 		op := Op{Kind: kind}
 		switch kind {
 		case "get":
